@@ -362,7 +362,7 @@ def _minimize_expr(expr, visibility, kconfig):
             elif expr[0] == kconfiglib.UNEQUAL:
                 if type(new_expr1) is not type(new_expr2):
                     return y
-                if new_expr1 != new_expr2:
+                if new_expr1 == new_expr2:
                     return n
             else:  # <, <=, >, >=
                 if type(new_expr1) is not type(new_expr2):
